@@ -26,6 +26,11 @@
 #include <thread>
 #include <primesieve/Vector.hpp>
 #include <primesieve/calculator.hpp>
+#include <primesieve/EratSmall.hpp>
+#include <primesieve/EratMedium.hpp>
+#include <primesieve/EratBig.hpp>
+#include <primesieve/MemoryPool.hpp>
+#include <primesieve/Wheel.hpp>
 #include <sys/wait.h>
 
 #include <cerrno>
@@ -1254,6 +1259,128 @@ int streamCli(std::istream& in)
   return 0;
 }
 
+// --------------------------------------------------------------------------------------------
+// wheel: Wheel<M>::addSievingPrime(prime, segmentLow) with stop_ = stop, observed through a
+//        subclass that records what storeSievingPrime receives
+//   op: wheel <30|210> <prime> <segmentLow> <stop>
+// cross: one sieving prime crossed off over consecutive segments by the real EratSmall /
+//        EratMedium / EratBig; observation = the NUMBERS whose bits were cleared
+//   op: cross <small|medium|big> <prime> <segmentLow> <stop> <sieveBytes> <segments> <l1Bytes>
+// --------------------------------------------------------------------------------------------
+template <class W>
+struct ProbeWheel : W
+{
+  bool stored = false;
+  uint64_t p = 0, mi = 0, wi = 0;
+  void setStop(uint64_t s) { this->stop_ = s; }
+  void storeSievingPrime(uint64_t prime, uint64_t multipleIndex, uint64_t wheelIndex) override
+  { stored = true; p = prime; mi = multipleIndex; wi = wheelIndex; }
+};
+
+int streamWheel(std::istream& in)
+{
+  std::string line;
+  while (std::getline(in, line))
+  {
+    auto t = split(line);
+    if (t.empty() || t[0][0] == '#')
+      continue;
+    if (t[0] != "wheel" || t.size() < 5) { std::cerr << "bad op: " << line << "\n"; return 2; }
+    uint64_t prime = u64(t[2]), low = u64(t[3]), stop = u64(t[4]);
+    bool stored; uint64_t mi, wi;
+    if (t[1] == "30") { ProbeWheel<primesieve::Wheel30_t> w; w.setStop(stop); w.addSievingPrime(prime, low); stored = w.stored; mi = w.mi; wi = w.wi; }
+    else { ProbeWheel<primesieve::Wheel210_t> w; w.setStop(stop); w.addSievingPrime(prime, low); stored = w.stored; mi = w.mi; wi = w.wi; }
+    std::cout << line << " => ";
+    if (!stored) std::cout << "none";
+    else std::cout << "sp=" << prime / 30 << " idx=" << mi << " w=" << wi;
+    // oracle (128-bit arithmetic): the first multiple p*q > low+6 with q >= p and q coprime to M, if <= stop
+    {
+      unsigned M = t[1] == "30" ? 30 : 210;
+      unsigned __int128 sl = (unsigned __int128) low + 6;
+      unsigned __int128 q = sl / prime + 1;
+      if (q < prime) q = prime;
+      while (std::__gcd((unsigned) (q % M), M) != 1) q++;
+      unsigned __int128 m = q * prime;
+      bool want = m <= stop;
+      if (want != stored)
+        std::cout << " ORACLE-MISMATCH first admissible multiple " << (want ? "exists" : "does not exist") << " below stop";
+      else if (stored)
+      {
+        static const int off[8] = { 7, 11, 13, 17, 19, 23, 29, 31 };
+        // which number does (mi, bit of wi) denote?  the bit is not observable here; check the byte
+        unsigned __int128 lo = (unsigned __int128) low + 30 * (unsigned __int128) mi + 7, hi = lo + 24;
+        (void) off;
+        if (m < lo || m > hi) std::cout << " ORACLE-MISMATCH multipleIndex does not address the byte of the first multiple";
+      }
+    }
+    std::cout << "\n";
+  }
+  return 0;
+}
+
+int streamCross(std::istream& in)
+{
+  static const int off[8] = { 7, 11, 13, 17, 19, 23, 29, 31 };
+  std::string line;
+  while (std::getline(in, line))
+  {
+    auto t = split(line);
+    if (t.empty() || t[0][0] == '#')
+      continue;
+    if (t[0] != "cross" || t.size() < 8) { std::cerr << "bad op: " << line << "\n"; return 2; }
+    uint64_t prime = u64(t[2]), low = u64(t[3]), stop = u64(t[4]), S = u64(t[5]), nseg = u64(t[6]), l1 = u64(t[7]);
+    primesieve::MemoryPool pool;
+    primesieve::EratSmall es; primesieve::EratMedium em; primesieve::EratBig eb;
+    if (t[1] == "small") { es.init(stop, l1, prime); es.addSievingPrime(prime, low); }
+    else if (t[1] == "medium") { em.init(stop, prime, pool); em.addSievingPrime(prime, low); }
+    else { eb.init(stop, S, prime, pool); eb.addSievingPrime(prime, low); }
+    std::string text;
+    uint64_t count = 0, bad = 0;
+    unsigned M = t[1] == "big" ? 210 : 30;
+    primesieve::Vector<uint8_t> sieve;
+    for (uint64_t k = 0; k < nseg; k++)
+    {
+      sieve.resize(S);
+      std::fill(sieve.begin(), sieve.end(), (uint8_t) 0xff);
+      bool has = t[1] == "small" ? es.hasSievingPrimes() : t[1] == "medium" ? em.hasSievingPrimes() : eb.hasSievingPrimes();
+      if (has)
+      {
+        if (t[1] == "small") es.crossOff(sieve);
+        else if (t[1] == "medium") em.crossOff(sieve);
+        else eb.crossOff(sieve);
+      }
+      uint64_t segLow = low + k * S * 30;
+      for (uint64_t j = 0; j < S; j++)
+        if (sieve[j] != 0xff)
+          for (int b = 0; b < 8; b++)
+            if (!(sieve[j] & (1 << b)))
+            {
+              uint64_t n = segLow + 30 * j + off[b];
+              text += std::to_string(n) + ",";
+              count++;
+              if (n % prime != 0 || n / prime < prime || std::__gcd((unsigned) ((n / prime) % M), M) != 1) bad++;
+            }
+    }
+    // expected count: q from the first admissible quotient while p*q inside the sieved range
+    uint64_t expect = 0;
+    {
+      unsigned __int128 sl = (unsigned __int128) low + 6, end = (unsigned __int128) low + (unsigned __int128) nseg * S * 30 + 1;
+      unsigned __int128 q = sl / prime + 1;
+      if (q < prime) q = prime;
+      // addSievingPrime drops the prime when its first admissible multiple exceeds stop
+      unsigned __int128 q1 = q; while (std::__gcd((unsigned) (q1 % M), M) != 1) q1++;
+      if (q1 * prime <= stop)
+        for (; q * prime <= end; q++)
+          if (std::__gcd((unsigned) (q % M), M) == 1) expect++;
+    }
+    std::cout << line << " => n=" << count << " fnv=" << fnv1a(text);
+    if (bad) std::cout << " ORACLE-MISMATCH " << bad << " cleared bits are not multiples p*q with q >= p coprime to the wheel";
+    else if (count != expect) std::cout << " ORACLE-MISMATCH " << count << " bits cleared, " << expect << " admissible multiples in range";
+    std::cout << "\n";
+  }
+  return 0;
+}
+
 } // namespace
 
 int main(int argc, char** argv)
@@ -1291,6 +1418,10 @@ int main(int argc, char** argv)
     return streamIterC(in);
   if (stream == "calc")
     return streamCalc(in);
+  if (stream == "wheel")
+    return streamWheel(in);
+  if (stream == "cross")
+    return streamCross(in);
   if (stream == "cli")
     return streamCli(in);
   std::cerr << "unknown stream " << stream << "\n";
